@@ -236,6 +236,32 @@ pub fn check(case: &Case, idx: u64, acc: &mut Acc) {
                 let want = |a: usize, b: usize| f[a][b];
                 check_market(*n, quotes, *base, &want, 1e-12, case, "shapes", idx, acc);
             }
+            // clones: `clone()` and `clone_from` (onto a market over the same currencies listed in another order) give
+            // an object that answers exactly as its source
+            if idx % 5 == 0 && *n >= 3 {
+                let mk = |qs: &Vec<(usize, usize, f64)>, b: Option<usize>| -> Option<FXRates> {
+                    FXRates::try_new(qs.iter().map(|(a, c, q)| FXRate::try_new(CCYS[*a], CCYS[*c], Number::F64(*q), None).unwrap()).collect(), b.map(ccy)).ok()
+                };
+                let rev: Vec<(usize, usize, f64)> = quotes.iter().rev().cloned().collect();
+                let other_base = quotes[quotes.len() - 1].1;
+                if let (Some(src), Some(mut dst)) = (mk(quotes, *base), mk(&rev, Some(other_base))) {
+                    acc.eval();
+                    dst.clone_from(&src);
+                    let cl = src.clone();
+                    let mut bad = None;
+                    for a in 0..*n {
+                        for b in 0..*n {
+                            let w = src.rate(&ccy(a), &ccy(b)).map(|x| f64::from(&x).to_bits());
+                            if dst.rate(&ccy(a), &ccy(b)).map(|x| f64::from(&x).to_bits()) != w || cl.rate(&ccy(a), &ccy(b)).map(|x| f64::from(&x).to_bits()) != w {
+                                bad = Some((a, b));
+                            }
+                        }
+                    }
+                    if let Some((a, b)) = bad {
+                        acc.violate("clone/answers-differ-from-source", idx, serde_json::to_value(case).unwrap(), json!({"pair": format!("{}{}", CCYS[a], CCYS[b]), "want": src.rate(&ccy(a), &ccy(b)).map(|x| f64::from(&x))}), json!(dst.rate(&ccy(a), &ccy(b)).map(|x| f64::from(&x))));
+                    }
+                }
+            }
             if idx % 997 == 0 {
                 acc.sample(|| serde_json::to_value(case).unwrap());
             }
@@ -587,7 +613,7 @@ pub fn run(ctx: &Ctx, replay_file: Option<String>) -> ! {
          free-tree SHAPE (and, in both tiers, star / double star / chain / caterpillar / binary tree on 10..13 currencies) x a menu of orderings (as listed, reversed, BFS, reversed BFS, leaves first/last, interleaved, \
          all rotations) x 4 orientation patterns x every base. Oracle: all n^2 rates present, quoted pairs bit-exact, \
          diagonal exactly 1, r(a,b)*r(b,a)=1 and r(a,b) = exact path product to 1e-12 - which also makes the result \
-         independent of ordering and base. (3) rejection: every quote sequence of length <= 4 over all ordered pairs of \
+         independent of ordering and base; a clone, and a market over the same currencies in another order overwritten with clone_from, answer exactly as their source. (3) rejection: every quote sequence of length <= 4 over all ordered pairs of \
          4 (5) currencies x base in {None, each, one foreign} x settlement patterns over {None, d1, d2}: accepted iff \
          the quotes form a tree over exactly the mentioned currencies and all settlements are equal; never a panic; the same verdict \
          is demanded on the 10..13-currency shapes, valid and broken in one place (an extra quote closing a cycle, a repeated quote in either orientation, \
